@@ -63,7 +63,8 @@ def run(tier, seed, replay_path=None):
         o.notes["universe_files"] = len(files)
         files = window(files, 20000 if deep else 600, seed, o, "exhaustive") + sim
         args = [(PROP, i, f["src"], seed * 7919 + i, ["A", "B", "C"]) for i, f in enumerate(files)]
-        cases = flatten(pmap(decquery.build_generated, args))
+        ladders = [(PROP, f"ladder{j}", rng.randint(5, 30), seed * 401 + j) for j in range(300 if deep else 30)]
+        cases = flatten(pmap(decquery.build_generated, args)) + flatten(pmap(decquery.build_ladder, ladders))
         rej = decfam.judge(cases, wd, o, "judge expansions of TLC-generated table sets (DecTrace/DecQuery)")
         record(o, cases, rej)
         specs = shipped_specs(rng, deep, o)
